@@ -171,6 +171,27 @@ def pinned_designs(ctx):
         raise lib.ToolError(f"a pinned design was NOT refuted by TLC (vacuous invariant?): {out}")
 
 
+def layered_model(ctx):
+    """LayeredConc.tla (MultiLayerCacheImpl: one key, two layers, one action per call into a layer): the current design
+    must satisfy NoSpuriousMiss / NoStaleRead / Settled / PutKeepsKey on every interleaving of three operations; the
+    earlier designs (F11h) and the seeded put-order change must be refuted (anti-vacuity)."""
+    out = {}
+    for variant, expect in [("{}", False), ('{"no_second_look"}', True), ('{"remove_top_down"}', True), ('{"put_invalidates_first"}', True)]:
+        cfg = ctx.path(f"layered_{len(out)}.cfg")
+        lib.write_cfg(cfg, {"Tasks": "{1, 2, 3}", "Variant": variant, "InitKinds": '{"none", "l1", "l2"}'}, None, None, specification="Spec",
+                      invariants=["NoSpuriousMiss", "NoStaleRead", "Settled"], properties=["PutKeepsKey"])
+        r = lib.tlc(ctx, "LayeredConc", cfg, timeout=600, workers=4, expect_violation=True)
+        refuted = bool(r["invariant_violated"]) or r["property_violated"]
+        out[f"Variant={variant}"] = {"distinct_states": r["distinct"], "refuted": refuted}
+        if not expect:
+            ctx.cov["states"] += r["distinct"]
+            ctx.cov["transitions"] += r["generated"]
+        if refuted != expect:
+            raise lib.ToolError(f"LayeredConc Variant={variant}: refuted={refuted}, expected {expect}")
+    ctx.cov["layered_model"] = out
+    ctx.stage("layered-model", **{k: v["distinct_states"] for k, v in out.items()})
+
+
 def random_compute(ctx, target, n, tasks, ops, keys, kd, tag):
     """driver + monitor for one batch of seeded random programs (no reporting: may run in a worker thread)"""
     trace = ctx.path(f"trace_{target}_{tag}.ndjson")
@@ -251,6 +272,7 @@ def run(ctx):
             for fam in sweep_families(ctx.quick):
                 total += mem_family(ctx, fam, kd, target=target)[0]
         pinned_designs(ctx)
+        layered_model(ctx)
         for target in (os.environ.get("VERIF_C11_TARGETS") or "memc diskc").split():
             total += random_runs(ctx, target, 1500, 3, 3, 2, kd, f"s332{target}")
             total += random_runs(ctx, target, 150, 4, 20, 2, kd, f"stress_{target}2")
@@ -271,6 +293,7 @@ def run(ctx):
             n, trace = mem_family(ctx, fam, kd, target=target)
             total += n
     pinned_designs(ctx)
+    layered_model(ctx)
     nrand = 3000 if ctx.quick else 12000
     # DynamicContainer (write/read/query/remove + close/reopen probe) goes through the same monitor.
     # Long histories on real parallel threads (no schedule): windows that lie between sched points are only
